@@ -246,3 +246,18 @@ M('C05', 'fill-gaps-skip-original', PTF, "            for x in evenly_spaced_poi
 M('C05', 'fill-gaps-fixed-n', PTF, "            for x in evenly_spaced_points_between(result.last().unwrap(), p, n) {", "            for x in evenly_spaced_points_between(result.last().unwrap(), p, 1) {", 'fill_gaps:insertion')
 M('C05', 'evenly-between-includes-end', PTF, "    let step = (end - start) / (num_points + 1) as f64;\n    for i in 1..num_points + 1 {", "    let step = (end - start) / (num_points + 1) as f64;\n    for i in 1..num_points + 2 {", 'evenly_spaced_points_between')
 M('C05', 'resampled_x-off-by-one', S1F, "        let n = 1.0 + (self.x_max() - self.x_min()) / x_spacing;", "        let n = (self.x_max() - self.x_min()) / x_spacing;", 'Series1::resampled_x')
+
+# ---------------------------------------------------------------- C09
+POF = 'src/func1/polynomial.rs'
+CIF = 'src/geom2/circle2.rs'
+M('C09', 'lsq-skip-k-plus-1', POF, ".take(2 * K + 1).skip(K)", ".take(2 * K + 1).skip(K + 1)", 'INDEXCOV')
+M('C09', 'lsq-take-too-few', POF, ".take(2 * K + 1).skip(K)", ".take(2 * K - 2).skip(K)", 'INDEXCOV')
+M('C09', 'lsq-hankel-wrong-index', POF, "                matrix[(r, c)] = sums[r + c];", "                matrix[(r, c)] = sums[r + r];", 'hankel')
+M('C09', 'lsq-tail-unweighted', POF, "                *sums_k += w * xs[i].powi(k as i32);", "                *sums_k += xs[i].powi(k as i32);", 'least_squares:term')
+M('C09', 'circlefit-stale-residuals', CIF, "        compute_residuals_mut(self.points, &self.circle, &mut self.base_residuals);\n        compute_weights_mut(&self.base_residuals, &mut self.weights, self.mode);\n    }\n\n    fn params", "        compute_weights_mut(&self.base_residuals, &mut self.weights, self.mode);\n        compute_residuals_mut(self.points, &self.circle, &mut self.base_residuals);\n    }\n\n    fn params", 'set_params')
+M('C09', 'circlefit-forget-circle', CIF, "        self.x = *x;\n        self.circle = Circle2::new(x[0], x[1], x[2]);\n", "        self.x = *x;\n", 'set_params')
+M('C09', 'circlefit-jac-unweighted-col', CIF, "            jac[(i, 1)] = -n.y * self.weights[i];", "            jac[(i, 1)] = -n.y;", 'CircleFit::jacobian')
+M('C09', 'fit-circle-returns-initial', CIF, "        Ok(result.circle)\n    } else {\n        let text = format!(\"Failed to fit circle", "        Ok(*initial)\n    } else {\n        let text = format!(\"Failed to fit circle", 'fit_circle')
+M('C09', 'three-points-no-collinear-check', CIF, "        if det.abs() < 1.0e-6 {\n            Err(\"Points are collinear\".into())", "        if det.abs() < 0.0 {\n            Err(\"Points are collinear\".into())", 'from_3_points:collinear')
+M('C09', 'ransac-unseeded', CIF, "        let mut rng = StdRng::seed_from_u64(24601);", "        let mut rng = StdRng::seed_from_u64(rand::random::<u64>());", 'ransac:seeded')
+M('C09', 'ransac-accept-equal', CIF, "                if count > best_count {", "                if count >= best_count {", 'ransac:improve-only')
